@@ -111,6 +111,23 @@ CHECKS["C08"] = ("model_checking",
          "DESIGN.md §5 C08")
 NOT_YET = {}
 
+# round-15 additions to what each check explores (appended to the level text)
+ADD15 = {
+ "C01": " Operator chains written without parentheses (OpCases.tla GrammarTree: the operand structure is the grammar's, 6.5.5-6.5.14): every ordered pair of the 18 binary operators and a slice (thorough: all) of the triples, on operand tuples that distinguish the grammar's tree from every other tree.",
+ "C03": " SigGen.tla: signatures of a definition called in the same unit (0..3 parameters from 13 type classes, named or unnamed, variadic or not); QbeWF obligation SigMatchesC compares header, call and C signature pairwise.",
+ "C04": " Floating results that need IEEE-754 rounding are decided (CArith DRound: round-to-nearest-even of exact dyadic values to binary32/binary64): f-suffixed, hexadecimal and large integral constants, integer->floating and double->float conversions, rounded arithmetic; unparenthesised operator chains and ?: in every folding context.",
+ "C05": " EnumConst.tla: the type of an enumeration constant and of the enumerated type as a function of the enumerator values, the types of their defining expressions, implicit successors and a fixed underlying type, probed inside the enumerator list and after the closing brace.",
+ "C10": " Function-context dimension (static, inline definition, static inline, extern inline, inline after a non-inline declaration, _Noreturn) for the rules diagnosed at function end.",
+ "C11": " The text of a block comment is enumerated character by character (Loc.tla cmt: `*`, `/`, new-line, backslash, filler) until the comment is closed.",
+ "C12": " Directive lines that leave the macro table alone (null directive, #pragma, #line, line markers; 13 spellings) at every line boundary of a base unit, both legs judged; PPNEWLINE is model state (Inv_Newline).",
+ "C14": " Units of 2-4 literals of one prefix and element count used as expressions, each followed to the data definition it evaluates to (pool family).",
+ "C19": " Raw UTF-8 byte sequences derived from the decoder's case boundaries (Bounds.tla utf8 family) x literal kind x prefix x context.",
+ "C20": " VmTypes.tla: derivation chains of constant / variable / expression-length arrays and pointers over 8 code-generating positions, rendered into large (recycled heap) and small (fresh heap) files.",
+}
+for _i, _t in ADD15.items():
+    _c = CHECKS[_i]
+    CHECKS[_i] = (_c[0], _c[1], _c[2] + _t, _c[3], _c[4])
+
 def main():
     props = [json.loads(l) for l in open(os.path.join(V, "properties.jsonl"))]
     na_file = os.path.join(V, "harness", "not_applicable.json")
